@@ -261,10 +261,17 @@ def run(ctx, res):
                   "join < index block write and offset record < trailer write",
                   "finish records the index block before joining the result handler or after writing the trailer", fin.loc(evs[ibo[0]].node))
         v = APE.vstr(evs[ibo[0]].b)
-        before_adv = not [i for i in po if i < ibo[0]]
-        res.check(re.match(r"^\w+->pending_offset@\d+$", v) is not None and before_adv, "C10.R2", site(fin, "index_block_offset"),
-                  "index_block_offset := pending_offset before it is advanced by the index bytes",
-                  "index_block_offset := %s (%s the index bytes were added)" % (v, "before" if before_adv else "after"), fin.loc(evs[ibo[0]].node))
+        # the value recorded must be the cursor as it stood when the index block's first byte went out: the very symbol the
+        # advance of the cursor is computed from (value identity, not statement order: the advance may sit in a helper)
+        is_cursor = re.match(r"^\w+->pending_offset@\d+$", v) is not None
+        base_ok = True
+        for i in po:
+            terms, _c = linsum(APE.vstr(evs[i].b), tags=True)
+            if v not in terms and APE.vstr(evs[i].b) != v:
+                base_ok = False
+        res.check(is_cursor and base_ok, "C10.R2", site(fin, "index_block_offset"),
+                  "index_block_offset := the cursor value the index bytes were written at (the value the advance starts from)",
+                  "index_block_offset := %s, which is not the cursor value the index block was written at" % v, fin.loc(evs[ibo[0]].node))
         res.check(evs[bib[0]].b == evs[wb[0]].c, "C10.R2", site(fin, "bytes_index_block"),
                   "bytes_index_block := bytes returned by the framing function for the index block",
                   "bytes_index_block := %s" % APE.vstr(evs[bib[0]].b), fin.loc(evs[bib[0]].node))
